@@ -343,6 +343,26 @@ def check_c27(tier, seed):
         for c, r in zip(fam[1:], frs[1:]):
             if r.get('outcome') == 'ok' and out_key(r) != out_key(b):
                 kind, det = diff_detail(b, r); ck.add(Violation('C27', 'DIFF', kind, det, c, 'plain', family=[fam[0], c]), 'diff_C27')
+    # liveness sweep: "completes whenever the application drains after each submission" over the pipeline routes whose pools are sized
+    # differently (GOP depth x core count x look-ahead/TPL/rate control/overlays/recon) with streams long enough (several mini-GOPs,
+    # EOS at every phase of the mini-GOP) that every pool is recycled; the scheduler decides DEADLOCK exactly
+    live = []
+    extras = [{}, {'enable_overlays': 1}, {'pred_structure': 1}, {'recon_enabled': 1}, {'intra_period_length': 40}, {'intra_period_length': 95, 'intra_refresh_type': 1}, {'enable_tpl_la': 0},
+              {'rate_control_mode': 1, 'intra_period_length': 63}, {'rate_control_mode': 2, 'intra_period_length': 31, 'recon_enabled': 1}, {'enable_tpl_la': 0, 'look_ahead_distance': 50}, {'tile_columns': 1, 'tile_rows': 1}]
+    combos = [(hl, cores, e) for hl in (2, 3, 4, 5) for cores in (1, 2, 3, 4, 8) for e in extras]
+    rng.shuffle(combos)
+    for k, (hl, cores, e) in enumerate(combos[:40] if tier == 'quick' else combos * 2):
+        cfg = dict({'recon_enabled': 0, 'hierarchical_levels': hl, 'logical_processors': 0}, **e); n = rng.choice([33, 60, 61, 77, 90, 130]) + rng.randint(0, 3)
+        wh = (256, 128) if e.get('tile_columns') else (64, 64)
+        sim = {'policy': 'np', 'seed': 1} if k % 2 == 0 else gen.schedule(rng, allow_buggify=False, api_stall=0)
+        live.append(mk(ck, cfg, {'kind': 'mix', 'seed': rng.randint(1, 99)}, n if not e.get('tile_columns') else 20, wh, g={'pacing': 'each'}, sim=sim, machine={'cores': cores, 'sockets': 1}, oracles={'decode': 0, 'parse': 0, 'order': 1}))
+    rs = pmap(lambda c: run_case(c, 'plain'), live, variant='plain')
+    for c, r in zip(live, rs):
+        ck.ev.add_run(c, r, _default_key(c, r)); ck.ev.probe('liveness_sweep_runs')
+        if r.get('outcome') in props.TERMINATION:
+            ck.add(Violation('C27', r['outcome'], r.get('site', ''), 'drain-after-every-send program did not complete: ' + (r.get('detail') or '')[:300], c, 'plain'), 'single27')
+        for v in relabel(single_violations(c, r, 'plain'), 'C27', ('CRASH',)):
+            ck.add(v, 'single')
     return ck.finish()
 
 @evaluator('single27')
@@ -485,10 +505,16 @@ def check_c22(tier, seed):
     ck.ev.components = core.COMPONENTS_ENC; ck.ev.assumptions = list(ENC_ASSUME)
     core.build('plain'); rng = ck.rng
     gops = [{'hierarchical_levels': 4}, {'hierarchical_levels': 3, 'intra_period_length': 63, 'intra_refresh_type': 1}, {'pred_structure': 1, 'hierarchical_levels': 3}, {'hierarchical_levels': 5, 'intra_period_length': -1}]
-    lens = [300, 280, 420, 330] if tier == 'quick' else [2100, 4200, 2100, 2300]
+    # every circular queue has its own route: the look-ahead (initial rate control) reorder queue is bypassed unless the look-ahead
+    # distance is non-zero, i.e. TPL look-ahead off or a rate-control mode on; picture decision/packetization queues are always used
+    routes = [{}, {'enable_tpl_la': 0}, {'rate_control_mode': 1, 'target_bit_rate': 200000}, {'enable_tpl_la': 0, 'rate_control_mode': 2, 'target_bit_rate': 300000}, {'enable_tpl_la': 0, 'look_ahead_distance': 60}]
+    lens = [300, 2100, 420, 2130, 2075] if tier == 'quick' else [2100, 4200, 2100, 2300, 4150, 2060, 6200, 2049, 2110, 2200]
     cases = []
     for i, n in enumerate(lens):
-        g = dict(gops[(i + seed) % len(gops)]); g.update({'enc_mode': 8, 'logical_processors': 2, 'intra_period_length': g.get('intra_period_length', -1)})
+        g = dict(gops[(i + seed) % len(gops)]); g.update({'enc_mode': 8, 'logical_processors': 2 if i % 3 else 1, 'intra_period_length': g.get('intra_period_length', -1)})
+        g.update(routes[i % len(routes)] if tier == 'quick' else routes[(i + i // len(routes)) % len(routes)])
+        if g.get('rate_control_mode') and g.get('intra_period_length', -1) < 0: g['intra_period_length'] = 31
+        if g.get('rate_control_mode'): g['logical_processors'] = 4   # <=2 with recon is the drain deadlock KF-C27-vbr-recon-drain-deadlock, which short streams show too
         sim = {'policy': 'starve', 'starve_mod': 7, 'starve_rem': rng.randrange(7), 'seed': rng.randint(1, 10**6)} if i % 2 else {'policy': 'np', 'seed': 1}
         c = mk(ck, g, {'kind': 'mix', 'seed': rng.randint(1, 999)}, n, (64, 64), g={'pacing': 'each'}, sim=sim, oracles={'decode': 1, 'parse': 1, 'recon_compare': 1, 'order': 1, 'skip_priv': 1}); c['wall_timeout'] = 3000; c['sim']['step_limit'] = 400000000
         cases.append(c)
@@ -535,6 +561,15 @@ def check_c23(tier, seed):
         if tier == 'quick' or ck.time_left() < 300: break
     # whole-encoder event traces
     enc = [mk(ck, {'logical_processors': lp, 'enc_mode': 8}, {'kind': 'mix', 'seed': rng.randint(1, 99)}, rng.randint(4, 10), (64, 64), sim=gen.schedule(rng), oracles={'decode': 0, 'parse': 0}) for lp in ([2, 4, 8] if tier == 'quick' else [1, 2, 4, 8, 16] * 6)]
+    # object lifetimes differ per pipeline route (who releases PA references / references / input buffers depends on look-ahead, TPL,
+    # rate-control mode, overlays, prediction structure): long enough that pooled objects are recycled several times
+    routes = [({'rate_control_mode': 1, 'intra_period_length': 31, 'recon_enabled': 0}, 130), ({'rate_control_mode': 2, 'intra_period_length': 15, 'recon_enabled': 0}, 100),
+              ({'enable_tpl_la': 0}, 60), ({'enable_tpl_la': 0, 'look_ahead_distance': 40, 'hierarchical_levels': 3}, 90), ({'enable_overlays': 1, 'hierarchical_levels': 3}, 50),
+              ({'pred_structure': 1}, 50), ({'pred_structure': 0, 'hierarchical_levels': 3}, 40), ({'hierarchical_levels': 5}, 80), ({'intra_period_length': 7, 'intra_refresh_type': 1}, 50),
+              ({'superres_mode': 1, 'superres_denom': 12}, 30), ({'screen_content_mode': 1}, 30), ({'rate_control_mode': 1, 'intra_period_length': 47, 'enable_tpl_la': 0, 'recon_enabled': 0}, 110)]
+    for k, (rcfg, n) in enumerate(routes if tier == 'quick' else routes * 3):
+        cfg = dict({'logical_processors': rng.choice([1, 2, 4]), 'enc_mode': 8}, **rcfg)
+        enc.append(mk(ck, cfg, {'kind': rng.choice(['mix', 'moving']), 'seed': rng.randint(1, 99)}, n, (64, 64), g={'pacing': 'each'}, sim=gen.schedule(rng, allow_buggify=False) if k % 2 else {'policy': 'np', 'seed': 1}, oracles={'decode': 0, 'parse': 0}))
     rs = pmap(lambda c: run_case(c, 'plain'), enc, variant='plain')
     for c, r in zip(enc, rs):
         ck.ev.add_run(c, r, _default_key(c, r)); ck.ev.probe('whole_encoder_srm_events', (r.get('events') or {}).get('srm_events', 0))
